@@ -1,5 +1,6 @@
 import Lean.Data.Json
 import GsModel.Diff.Json
+import GsModel.Diff.Total
 import GsModel.Ops.Regen
 import GsModel.Text.Escape
 import GsModel.Ops.Gather
@@ -23,7 +24,9 @@ def handleDiff (j : Json) : Json :=
   let fuel := 200
   let run (o : Nat) := Json.mkObj (Diff.J.outcomeJson (Diff.analyse { rev := o } fuel a b))
   let r0 := Diff.analyse { rev := 0 } fuel a b
-  Json.mkObj (Diff.J.outcomeJson r0 ++ [("alts", Json.arr #[run 1, run 2, run 3, run 4, run 5])])
+  Json.mkObj (Diff.J.outcomeJson r0 ++ [("alts", Json.arr #[run 1, run 2, run 3, run 4, run 5]),
+    -- the validity hypothesis of `total_no_panic`, evaluated beyond the nesting depth of any generated document
+    ("va", Json.bool (a.validB 40)), ("vb", Json.bool (b.validB 40))])
 
 def handleExecute (j : Json) : Json :=
   let ds := (Diff.J.arr j "diffs").filterMap Diff.J.entry
